@@ -298,6 +298,111 @@ def scheduler_case(rng, rec, case):
         shutil.rmtree(root, ignore_errors=True)
 
 
+FAKE = '''#!/bin/sh
+# scripted stand-in for git / cmake: logs its call, exits as planned
+dir="$(dirname "$0")"
+n=$(cat "$dir/counter")
+echo $((n + 1)) > "$dir/counter"
+echo "call_$n $*" >> "$dir/calls"
+echo "TOOL_OUT_$n"
+echo "TOOL_ERR_$n" >&2
+code=$(sed -n "$((n + 1))p" "$dir/plan")
+case "$code" in
+  sig9) kill -9 $$ ;;
+  *) exit $code ;;
+esac
+'''
+
+
+def vcs_case(rng, rec, case):
+    '''CheckoutTask / BuildTask with GIT / CMAKE pointed at a scripted fake:
+    two commands in a row each (clone + checkout, configure + build).'''
+    # pylint: disable=too-many-locals
+    from valjean.cosette.code import CheckoutTask, BuildTask
+    from valjean.cosette.env import Env
+    root = setup_root()
+    saved = (CheckoutTask.GIT, BuildTask.CMAKE)
+    try:
+        tool = os.path.join(root, 'tool', 'fake.sh')
+        os.makedirs(os.path.dirname(tool))
+        with open(tool, 'w') as fil:
+            fil.write(FAKE)
+        os.chmod(tool, 0o755)
+        codes = [rng.choice([0, 0, 0, 1, 2, 255, 'sig9']) for _ in range(2)]
+        with open(os.path.join(root, 'tool', 'plan'), 'w') as fil:
+            fil.write('\n'.join(str(c) for c in codes) + '\n')
+        with open(os.path.join(root, 'tool', 'counter'), 'w') as fil:
+            fil.write('0\n')
+        config = make_config(root)
+        config.set('path', 'log-root', os.path.join(root, 'log'))
+        kind = rng.choice(['checkout', 'build'])
+        name = rng.choice(['co', 'build it', 'tâche'])
+        if kind == 'checkout':
+            CheckoutTask.GIT = tool
+            task = CheckoutTask(name, repository=os.path.join(root, 'repo'),
+                                ref=rng.choice([None, 'v1']),
+                                flags=rng.choice([None, ['--depth', '1']]))
+        else:
+            BuildTask.CMAKE = tool
+            src = os.path.join(root, 'src')
+            os.makedirs(src)
+            task = BuildTask(name, src, targets=rng.choice([None, ['all'],
+                                                            ['a', 'b']]),
+                             build_flags=rng.choice([None, ['-j2']]))
+        rec.count('tasks_run')
+        rec.count('vcs_tasks_run')
+        try:
+            update, status = task.do(Env(), config)
+        except Exception as err:  # pylint: disable=broad-except
+            rec.violation(f'do-raised-{type(err).__name__}',
+                          f'{kind} task: {err!r}', case)
+            return
+        ncalls = 0
+        calls_file = os.path.join(root, 'tool', 'calls')
+        if os.path.exists(calls_file):
+            with open(calls_file) as fil:
+                ncalls = len(fil.read().splitlines())
+        exp_calls = 1 if codes[0] != 0 else 2
+        exp_status = 'DONE' if codes == [0, 0] else 'FAILED'
+        rec.count('commands_scripted', 2)
+        rec.count('marker_checks', 2)
+        if ncalls != exp_calls:
+            key = ('command-run-after-first-failure' if ncalls > exp_calls
+                   else 'command-not-run')
+            rec.violation(key, f'{kind} task with exit codes {codes}: '
+                          f'{ncalls} tool invocations, expected {exp_calls}',
+                          case)
+        sname = getattr(status, 'name', repr(status))
+        if sname != exp_status:
+            rec.violation(f'status-{sname}-expected-{exp_status}-vcs',
+                          f'{kind} task with exit codes {codes}: {sname}',
+                          case)
+        entry = update.get(name, {})
+        log = entry.get('checkout_log') or entry.get('build_log')
+        rec.count('output_files_compared')
+        text = read(log) if log else ''
+        outs = [ln for ln in text.splitlines()
+                if ln.startswith(('TOOL_OUT_', 'TOOL_ERR_'))]
+        want = []
+        for i in range(exp_calls):
+            want += [f'TOOL_OUT_{i}', f'TOOL_ERR_{i}']
+        if sorted(outs) != sorted(want) or \
+                [o for o in outs if 'OUT' in o] != [w for w in want
+                                                    if 'OUT' in w]:
+            rec.violation('stdout-differs', f'{kind} task with exit codes '
+                          f'{codes}: log holds {outs}, expected {want}', case)
+        rec.count('directory_checks')
+        outdir = os.path.realpath(entry.get('output_dir', ''))
+        rroot = os.path.realpath(os.path.join(root, 'out'))
+        if os.path.dirname(outdir) != rroot:
+            rec.violation('output-directory-is-not-a-subdirectory-of-its-own',
+                          f'{kind} task {name!r}: {outdir}', case)
+        rec.seen((kind, tuple(codes), 'vcs'))
+    finally:
+        CheckoutTask.GIT, BuildTask.CMAKE = saved
+        shutil.rmtree(root, ignore_errors=True)
+
+
 def run_random(spec, rec):
     seed = spec['seed']
     for idx in range(spec['lo'], spec['hi']):
@@ -308,7 +413,9 @@ def run_random(spec, rec):
 
 
 def one(rng, idx, rec, case):
-    if idx % 3 == 0:
+    if idx % 10 == 9:
+        vcs_case(rng, rec, case)
+    elif idx % 3 == 0:
         scheduler_case(rng, rec, case)
     elif idx % 3 == 1:
         direct_case(rng, rec, case)
